@@ -7,7 +7,7 @@ import vlib
 from checks import _spectral as sp
 
 PROPERTY = "C06"
-LEAN_MODULES = ["TapkeeVerif.Props.C06"]
+LEAN_MODULES = ["TapkeeVerif.Props.C06", "TapkeeVerif.Props.C06Compose"]
 LEAN_EXES = ["model_c06"]
 REQUIRED_THEOREMS_FINAL = [
     "TapkeeVerif.C06.covarianceUpper_upper",
@@ -21,6 +21,9 @@ REQUIRED_THEOREMS_FINAL = [
     "TapkeeVerif.C06.randomized_sees_cov",
     "TapkeeVerif.C06.pca_optimal",
     "TapkeeVerif.C06.pca_kpca_mds_agree",
+    "TapkeeVerif.PcaCompose.pcaRow_mem",
+    "TapkeeVerif.PcaCompose.pca_end_to_end",
+    "TapkeeVerif.PcaCompose.ex_isTopEig",
 ]
 REQUIRED_THEOREMS = REQUIRED_THEOREMS_FINAL
 
